@@ -159,6 +159,13 @@ func ruleCopyDeep(w *World, r *RuleResult) {
 		r.check(ret.Op == "new", "Copy/fresh-object", w.Pos(cp.Pos()), "returns a newly allocated WarriorData", "Copy returns "+ret.Show()+", not a fresh object")
 		stored := map[string]*T{}
 		for _, e := range p.Events {
+			if e.Kind == "store" && e.LV.Key() == ret.Key() {
+				// the whole struct assigned at once (dup := *w): every field takes the source's field
+				for i := 0; i < wd.NumFields(); i++ {
+					f := wd.Field(i)
+					stored[f.Name()] = mksel(e.Val, f.Name(), f.Type())
+				}
+			}
 			if e.Kind == "store" && e.LV.Op == "sel" && e.LV.A[0].Key() == ret.Key() {
 				stored[e.LV.S] = e.Val
 			}
